@@ -213,4 +213,83 @@ Proof.
     + destruct (cut i y); [reflexivity|]. apply (W6 y Hy Hux); exact Hi.
 Qed.
 
+(** the same when the dart in the third slot is glued to q: e, ne and q disappear, the first-slot dart takes the place of q *)
+Theorem halfcell_to_base_inner_mirror E n ks pe e ne c w cnt w' cnt' :
+  let q := beta w 2 ne in let p0 := beta w 0 q in let p1 := beta w 1 q in
+  NoDup [pe; e; ne; q; p0; p1] -> ~ In 0 [pe; e; ne; q; p0; p1] ->
+  beta w 1 e = pe -> beta w 1 pe = ne -> beta w 1 ne = e -> beta w 1 p0 = q -> beta w 2 e = 0 ->
+  run E (collapse_halfcell_to_base n ks pe e ne) c w cnt = (Done tt, w', cnt') ->
+  (forall i y, beta w' i y =
+     if (y =? e) || (y =? ne) || (y =? q) then (if i <? 3 then 0 else beta w i y)
+     else if (i =? 1) && (y =? pe) then p1 else if (i =? 0) && (y =? pe) then p0
+     else if (i =? 1) && (y =? p0) then pe else if (i =? 0) && (y =? p1) then pe
+     else beta w i y) /\
+  (forall y, unused w' y = if (y =? e) || (y =? ne) || (y =? q) then true else unused w y).
+Proof.
+  intros q p0 p1.
+  remember (beta w 2 ne) as q' eqn:Eq. subst q. rename q' into q.
+  remember (beta w 0 q) as p0' eqn:Ep0. subst p0. rename p0' into p0.
+  remember (beta w 1 q) as p1' eqn:Ep1. subst p1. rename p1' into p1.
+  intros Hnd Hz B1 B2 B3 B4 Ze Hr.
+  assert (Z : pe <> 0 /\ e <> 0 /\ ne <> 0 /\ q <> 0 /\ p0 <> 0 /\ p1 <> 0).
+  { cbn [In] in Hz. repeat split; intros Q; apply Hz; rewrite Q; tauto. }
+  destruct Z as (Z1 & Z2 & Z3 & Z4 & Z5 & Z6).
+  assert (D : (pe <> e /\ pe <> ne /\ pe <> q /\ pe <> p0 /\ pe <> p1) /\ (e <> ne /\ e <> q /\ e <> p0 /\ e <> p1) /\
+              (ne <> q /\ ne <> p0 /\ ne <> p1) /\ (q <> p0 /\ q <> p1) /\ p0 <> p1).
+  { repeat match goal with Hq : NoDup (_ :: _) |- _ => inversion Hq; clear Hq; subst end.
+    cbn [In] in *. repeat split; intros Q; intuition congruence. }
+  destruct D as ((Q1 & Q2 & Q3 & Q4 & Q5) & (Q6 & Q7 & Q8 & Q9) & (Q10 & Q11 & Q12) & (Q13 & Q14) & Q15).
+  clear Hnd Hz.
+  unfold collapse_halfcell_to_base in Hr.
+  apply rd_stepY' in Hr. rewrite <- Eq in Hr.
+  apply rd_stepY' in Hr. rewrite <- Ep0 in Hr. apply rd_stepY' in Hr. rewrite <- Ep1 in Hr.
+  stepU (@unsew1_stepU _ unit) Hr F1 U1. rewrite B1 in F1.
+  stepU (@unsew1_stepU _ unit) Hr F2 U2.
+  assert (V2 : beta wk 1 pe = ne) by (lk; auto). rewrite V2 in F2.
+  stepU (@unsew1_stepU _ unit) Hr F3 U3.
+  assert (V3 : beta wk0 1 ne = e) by (lk; auto). rewrite V3 in F3.
+  rewrite (proj2 (N.eqb_neq q 0) Z4) in Hr. cbn [negb] in Hr.
+  stepU (@unsew1_stepU _ unit) Hr F4 U4.
+  assert (V4 : beta wk1 1 q = p1) by (lk; auto). rewrite V4 in F4.
+  stepU (@unsew1_stepU _ unit) Hr F5 U5.
+  assert (V5 : beta wk2 1 p0 = q) by (lk; auto). rewrite V5 in F5.
+  stepU (@unlink2c_stepU _ unit) Hr F6 U6.
+  assert (V6 : beta wk3 2 ne = q) by (lk; auto). rewrite V6 in F6.
+  stepU (@remove_stepU _ unit) Hr F7 U7. stepU (@remove_stepU _ unit) Hr F8 U8. stepU (@remove_stepU _ unit) Hr F9 U9.
+  stepU (@sew1_stepU _ unit) Hr F10 U10.
+  apply sew1_last in Hr. destruct Hr as [F11 U11]. unfold img_eq, fl_eq, p_link1 in F11, U11.
+  split.
+  - intros i y.
+    destruct (N.eqb_spec i 0) as [->|Ni0]; [|destruct (N.eqb_spec i 1) as [->|Ni1]; [|destruct (N.eqb_spec i 2) as [->|Ni2]]].
+    + change (0 <? 3) with true. lk.
+      destruct (N.eqb_spec y pe) as [->|M1]; [simpl_ne; reflexivity|].
+      destruct (N.eqb_spec y e) as [->|M2]; [simpl_ne; reflexivity|].
+      destruct (N.eqb_spec y ne) as [->|M3]; [simpl_ne; reflexivity|].
+      destruct (N.eqb_spec y q) as [->|M4]; [simpl_ne; reflexivity|].
+      destruct (N.eqb_spec y p0) as [->|M5]; [simpl_ne; reflexivity|].
+      destruct (N.eqb_spec y p1) as [->|M6]; [simpl_ne; reflexivity|]. simpl_ne. reflexivity.
+    + change (1 <? 3) with true. lk.
+      destruct (N.eqb_spec y pe) as [->|M1]; [simpl_ne; reflexivity|].
+      destruct (N.eqb_spec y e) as [->|M2]; [simpl_ne; reflexivity|].
+      destruct (N.eqb_spec y ne) as [->|M3]; [simpl_ne; reflexivity|].
+      destruct (N.eqb_spec y q) as [->|M4]; [simpl_ne; reflexivity|].
+      destruct (N.eqb_spec y p0) as [->|M5]; [simpl_ne; reflexivity|].
+      destruct (N.eqb_spec y p1) as [->|M6]; [simpl_ne; reflexivity|]. simpl_ne. reflexivity.
+    + change (2 <? 3) with true. lk.
+      destruct (N.eqb_spec y pe) as [->|M1]; [simpl_ne; reflexivity|].
+      destruct (N.eqb_spec y e) as [->|M2]; [simpl_ne; exact Ze|].
+      destruct (N.eqb_spec y ne) as [->|M3]; [simpl_ne; reflexivity|].
+      destruct (N.eqb_spec y q) as [->|M4]; [simpl_ne; reflexivity|].
+      destruct (N.eqb_spec y p0) as [->|M5]; [simpl_ne; reflexivity|].
+      destruct (N.eqb_spec y p1) as [->|M6]; [simpl_ne; reflexivity|]. simpl_ne. reflexivity.
+    + assert (Hi : (i <? 3) = false) by (clear - Ni0 Ni1 Ni2; apply N.ltb_ge; lia). rewrite Hi.
+      rewrite F11, F10, F9, F8, F7, F6, F5, F4, F3, F2, F1.
+      rewrite (proj2 (N.eqb_neq i 0) Ni0), (proj2 (N.eqb_neq i 1) Ni1), (proj2 (N.eqb_neq i 2) Ni2). cbn [andb].
+      destruct ((y =? e) || (y =? ne) || (y =? q)); reflexivity.
+  - intros y. rewrite U11, U10, U9, U8, U7, U6, U5, U4, U3, U2, U1.
+    destruct (N.eqb_spec y e) as [->|M2]; [simpl_ne; reflexivity|].
+    destruct (N.eqb_spec y ne) as [->|M3]; [simpl_ne; reflexivity|].
+    destruct (N.eqb_spec y q) as [->|M4]; [simpl_ne; reflexivity|]. simpl_ne. reflexivity.
+Qed.
+
 End CollapseMirror.
